@@ -229,15 +229,30 @@ func TestVerif_C31(t *testing.T) {
 				// "traffic flows as soon as either handshake completes"
 				add("dropped-on-fresh-primary", fmt.Sprintf("a handshake had completed on both sides, yet a data packet was not delivered: the sender had already made its responder side of the other, still half-open, handshake its primary (history %v)", c.Hist), detail)
 			}
-			// ---- quiet network, traffic in both directions: one packet each way per second for 90 s
+			// ---- the network is quiet from here on (everything is delivered at once). Traffic pattern of the steady phase,
+			// one packet each way per second while "on": 0 = 90 s on; 1 = 7 s off, 3 s on, 45 s off; 2 = 12 s off, 40 s on, 25 s off
+			pattern := []int{0, 2}[ci%2] // pattern 1 (a 3 s burst between silences) is not an oracle: the statement's convergence needs traffic that continues
+			on := func(sec int) bool {
+				switch pattern {
+				case 1:
+					return sec >= 7 && sec < 10
+				case 2:
+					return sec >= 12 && sec < 52
+				}
+				return true
+			}
+			horizon := map[int]int{0: 90, 1: 55, 2: 77}[pattern]
+			res.Hit(fmt.Sprintf("pattern:%d", pattern))
 			lastPa, lastPb := pa, pb
 			lastTa, lastTb := len(ta), len(tb)
 			flowOK := 0
-			for sec := 0; sec < 90; sec++ {
-				g1 := data(w.A, w.B)
-				g2 := data(w.B, w.A)
-				if g1 && g2 {
-					flowOK++
+			for sec := 0; sec < horizon; sec++ {
+				if on(sec) {
+					g1 := data(w.A, w.B)
+					g2 := data(w.B, w.A)
+					if g1 && g2 {
+						flowOK++
+					}
 				}
 				w.Advance(time.Second)
 				for k := 0; k < 3; k++ {
@@ -256,7 +271,7 @@ func TestVerif_C31(t *testing.T) {
 				lastPa, lastPb, lastTa, lastTb = npa, npb, len(nta), len(ntb)
 			}
 			fta, ftb, fpa, fpb, _ := w.state()
-			detail["final"] = map[string]any{"A": fta, "B": ftb, "pa": fpa, "pb": fpb, "swapsA": swappedA, "swapsB": swappedB, "seconds_with_flow": flowOK}
+			detail["final"] = map[string]any{"A": fta, "B": ftb, "pa": fpa, "pb": fpb, "swapsA": swappedA, "swapsB": swappedB, "seconds_with_flow": flowOK, "traffic_pattern": pattern}
 			if swappedA > 0 && swappedB > 0 {
 				add("both-nodes-swapped", fmt.Sprintf("both nodes swapped their primary tunnel (A %d times, B %d times)", swappedA, swappedB), detail)
 			}
@@ -270,8 +285,8 @@ func TestVerif_C31(t *testing.T) {
 				}
 			}
 			if !conv {
-				add("not-converged", fmt.Sprintf("after 90 quiet seconds with traffic in both directions the nodes hold A=%v B=%v (primaries %s/%s); A swapped %d times, B %d times", fta, ftb, fpa, fpb, swappedA, swappedB), detail)
-			} else if !data(w.A, w.B) || !data(w.B, w.A) {
+				add("not-converged", fmt.Sprintf("after the quiet period (traffic pattern %d) the nodes hold A=%v B=%v (primaries %s/%s); A swapped %d times, B %d times", pattern, fta, ftb, fpa, fpb, swappedA, swappedB), detail)
+			} else if pattern == 0 && (!data(w.A, w.B) || !data(w.B, w.A)) {
 				add("converged-but-no-traffic", "one tunnel on each side but data does not pass", detail)
 			}
 			if swappedA+swappedB > 0 {
